@@ -499,8 +499,9 @@ def oracle(case, impl_out):
             if comp_name:
                 img = fsgen.decode_for(fmt, raw)
                 if img is None:
-                    if not ret.startswith("err:") and kind != "R":
-                        return where + ": layer %d holds no valid LZ%s stream, the typed reader returned %s" % (holder, fmt, ret[:80])
+                    # the reference decoder of this oracle does not decode it; whether the library does is settled by the
+                    # correspondence with the model (complete decoder) - no claim here (a first version demanded an error and
+                    # raised a false alarm on the STORED FORM of the LZ13 entry, first byte 0, which it did not know)
                     snap = new
                     continue
             if kind == "R":
